@@ -73,9 +73,15 @@ def with_ctx(sig, ctx):
 
 
 class Judge:
-    """Divergences of C19 are DISAGREEMENTS between formulations (and broken TLP partitions).  A wrong answer that
-    all formulations share is a defect of the predicate itself, i.e. of C14: it is accepted here only if its blamed
-    node signature is a known finding of C14 (known_findings.d/C14.json), otherwise it is a violation."""
+    """What C19 reports are DISAGREEMENTS between formulations and broken TLP partitions, named by the rewrite kind
+    and the operator at the blamed node.  The blamed nodes come from the blame localisation of C14 (innermost nodes
+    whose value is not the oracle's for the observed values of their operands).
+      * A blamed node whose full node signature (context:family:[classes]:expected->observed) is a KNOWN FINDING OF
+        C14 (known_findings.d/C14.json) is that defect showing through a rewrite; it is counted in the evidence
+        (explained_by_C14) and not reported again - except for the TLP partition, which the property names
+        explicitly: a broken partition is always reported as tlp|<relation>|<operator introduced by the rewrite>.
+      * A blamed node with any other signature is reported: kind|relation|operator when the node was introduced by
+        the rewrite, any_rewrite|same_wrong_answer|<node signature> when every formulation contains it."""
 
     def __init__(self, chk, gen):
         self.chk, self.gen = chk, gen
@@ -84,39 +90,36 @@ class Judge:
         self.per_sig = collections.Counter()
         self.explained = collections.Counter()
 
-    def shared_wrong(self, sig, rep):
-        """sig: C14-style node signature with context "where" """
-        if self.c14.known(sig):
-            self.explained[sig] += 1
-            return
-        full = "any_rewrite|same_wrong_answer|" + sig
+    def report(self, full, rep):
         self.per_sig[full] += 1
         self.chk.classify(full, rep)
 
-    def disagreement(self, kind, relation, sig, rep):
-        full = "%s|%s|%s" % (kind, relation, operator_of(sig))
-        self.per_sig[full] += 1
-        self.chk.classify(full, rep)
+    def node(self, kind, relation, sig, label_ctx, introduced, rep):
+        """sig: node signature in its own context; label_ctx: the context to show in a C19 signature"""
+        sw = with_ctx(sig, "where")
+        tlp_break = kind == "tlp" and relation in ("not_a_partition", "a_part_fails_with_an_error") and introduced
+        if tlp_break:
+            self.report("%s|%s|%s" % (kind, relation, operator_of(with_ctx(sig, label_ctx))), rep)
+        elif self.c14.known(sw):
+            self.explained["%s: %s" % (kind if introduced else "(shared sub-expression)", sw)] += 1
+        elif introduced:
+            self.report("%s|%s|%s" % (kind, relation, operator_of(with_ctx(sig, label_ctx))), rep)
+        else:
+            self.report("any_rewrite|same_wrong_answer|" + sw, rep)
 
     def settle(self, kind, relation, blames, rep, shared_keys, shared_only):
         """blames: one OrderedDict(node signature -> details) per variant (empty for a variant that equals the model).
-        A blamed node that is a sub-expression of EVERY variant (shared_keys) is evaluated by every formulation: it
-        cannot make them disagree and is a defect of the predicate (C14). A blamed node that only some formulations
-        contain was introduced by the rewrite: it is what C19 names."""
+        A blamed node that is a sub-expression of EVERY variant (shared_keys) is evaluated by every formulation;
+        a blamed node that only some formulations contain was introduced by the rewrite."""
         union = collections.OrderedDict()
         for b in blames:
             for s, d in b.items():
                 u = union.setdefault(s, {"node": d.get("node"), "variant": d.get("variant"), "keys": set()})
                 u["keys"] |= d.get("keys", set())
-        introduced = [s for s, d in union.items() if not shared_only and any(k not in shared_keys for k in d["keys"])]
-        if not shared_only and not introduced:
-            introduced = list(union)       # the formulations disagree on a shared sub-expression: name it
         for s, d in union.items():
             r = dict(rep, blamed_node=d["node"], blamed_variant=d["variant"], all_blamed=list(union))
-            if s in introduced:
-                self.disagreement(kind, relation, s, r)
-            if shared_only or any(k in shared_keys for k in d["keys"]):
-                self.shared_wrong(with_ctx(s, "where"), r)
+            intro = (not shared_only) and any(k not in shared_keys for k in d["keys"])
+            self.node(kind, relation, s, "where", intro, r)
 
 
 def judge_record(J, rec, ob, ctx, expected_of_variant, row_of, label=None):
@@ -180,10 +183,14 @@ def part_rewrites(J, setup):
         # the run must end in a VIOLATION, which shows that the comparison binds
         for r in recs:
             if r["kind"] == "commute_and" and "T" in r["vals"][1] and r["vals"][0] == r["vals"][1]:
+                # consistently with the truth tables: the first operand of `b AND a` and the conjunction become FALSE
                 j = r["vals"][1].index("T")
-                r["vals"][1] = r["vals"][1][:j] + "F" + r["vals"][1][j + 1:]
-                r["nodes"][1][T.key(r["variants"][1])] = r["vals"][1]
-                chk.notes.append("SELFTEST: expectation of %s falsified at id %d" % (T.render(r["variants"][1]), j + 1))
+                flip = lambda v: v[:j] + "F" + v[j + 1:]
+                root, first = r["variants"][1], r["variants"][1][1]
+                r["vals"][1] = flip(r["vals"][1])
+                r["nodes"][1][T.key(root)] = r["vals"][1]
+                r["nodes"][1][T.key(first)] = flip(r["nodes"][1][T.key(first)])
+                chk.notes.append("SELFTEST: expectation of %s falsified at id %d" % (T.render(root), j + 1))
                 break
     ob = T.Observer(setup, len(gen.table))
     ob.ensure(("where", v) for r in recs for v in r["variants"])
@@ -255,6 +262,10 @@ FROM_FORMS = collections.OrderedDict([
     ("qualified columns", "SELECT t.id, u.uid FROM t, u WHERE %s")])
 
 
+FORM_CLASS = {"from t,u": "comma join", "from u,t": "comma join", "t cross join u": "cross join", "u cross join t": "cross join",
+              "t join u on": "join on", "u join t on": "join on", "qualified columns": "qualified columns"}
+
+
 def part_from_reordering(J, setup):
     gen, stats = J.gen, J.stats
     recs = [r for r in gen.rewrites if r["on"] == "tu"]
@@ -308,17 +319,24 @@ def part_from_reordering(J, setup):
         bl_of = dict(zip(FROM_FORMS, blames))
         major_blame = bl_of[major[0]]
         for s, d in major_blame.items():
-            J.shared_wrong(s, dict(rep, blamed_node=d.get("node"), blamed_formulation=major[0]))
+            J.node("reorder_from", rel, s, "where", False, dict(rep, blamed_node=d.get("node"), blamed_formulation=major[0]))
+        done = set()
         for c in FROM_FORMS:
             if c in major:
                 continue
+            # what only this formulation gets wrong (a formulation that is right while the majority is wrong for
+            # reasons already judged above needs no entry of its own). Both orders of the same join syntax count as
+            # one formulation when both deviate.
+            cls = FORM_CLASS[c]
+            both = all(x not in major for x in FROM_FORMS if FORM_CLASS[x] == cls)
+            label = cls if both or cls == "qualified columns" else cls + " (one table order only)"
             own = [s for s in bl_of[c] if s not in major_blame] or list(bl_of[c])
-            if not own:      # this formulation is right, the majority is wrong: name the majority's defect for it
-                for s, d in major_blame.items():
-                    J.disagreement("reorder_from", rel, with_ctx(s, "all_but_" + c), dict(rep, blamed_node=d.get("node"), blamed_formulation=c))
             for s in own:
+                if (label, s) in done:
+                    continue
+                done.add((label, s))
                 d = bl_of[c][s]
-                J.disagreement("reorder_from", rel, with_ctx(s, c), dict(rep, blamed_node=d.get("node"), blamed_formulation=c))
+                J.node("reorder_from", rel, s, label, True, dict(rep, blamed_node=d.get("node"), blamed_formulation=c))
     stats["queries"] += ob.queries + ob_q.queries
 
 
@@ -445,7 +463,7 @@ def run(chk):
                           "usable_by_class": {k[14:]: v for k, v in stats.items() if k.startswith("opaque_usable:")},
                           "atom_values": {c: int(stats["atom_value:" + c]) for c in "TFN"}},
                "select_permutations_all_wrong_alike": int(stats["select_permutations_all_wrong_alike"]),
-               "shared_wrong_answers_explained_by_C14_findings": dict(J.explained),
+               "blamed_nodes_explained_by_C14_findings": dict(J.explained),
                "signatures": dict(J.per_sig), "tlc_runs": gen.stats, "exhaustive": False}
 
 
